@@ -340,6 +340,7 @@ def _phrase_effect(tag, min_len=0, code_arg=None):
         env.vars['__ok__'] = ok
         if isinstance(p, PyObj) and '_nesting' in p.attrs:
             I.ghost['nesting_at_last_phrase'] = p.attrs['_nesting']
+        I.ghost['names_declared_before_last_phrase'] = len(I.ghost.get('defined_in', PyList()).items)
         if ok:
             cg = env.vars.get(code_arg) if code_arg else None
             cg = cg or p.attrs['_code_gen']
